@@ -156,6 +156,12 @@ def range_write(prog, rep, tag):
         # advance by word.len() == 2
         adv = [a for a in q.field_accesses(b, "EepromRange", "byte_pos") if a[2] == "write"]
         d["advance-after-write"] = len(adv) == 1 and adv[0][0] in b.reachable_strict(ww[0].bb)
+        # the word address handed to the provider is the checked conversion of the cursor (word_pos()? fails with
+        # SectionOverrun beyond word 0xFFFF), computed for *this* word: no running address kept beside the cursor,
+        # no wrapping arithmetic that would carry a write past the end of the address space back to word 0
+        ar = Prov(b).of_operand(ww[0].args[1])
+        arith = sorted({x[1] for x in ar if x[0] == "binop"} | {x[1] for x in ar if x[0] == "call" and any(k in x[1] for k in ("wrapping_", "saturating_", "overflowing_", "unchecked_", "::add", "::sub"))})
+        d["address-is-checked-cursor"] = has_root(ar, "call", "EepromRange::word_pos") and not arith
         # the count handed back is what was consumed from the caller's buffer (the padded byte is not part
         # of it): write_all advances its slice by that count and panics if it exceeds what it passed in
         oks = q.aggregates(b, "Result", "Ok")
